@@ -147,7 +147,9 @@ fn check_target(tg: &Target, tier: Tier, rep: &mut Report) {
                 rep.nontrivial += 1;
                 rep.outcome("both-accept");
                 let u0 = &u[0];
-                let eq = if tg.unordered { canon(val) == canon(u0) } else { val == u0 };
+                // maps, sets and heaps have no wire order of their own: compare as multisets
+                let unordered = tg.unordered || tg.name.contains("Map") || tg.name.contains("Set") || tg.name.contains("Heap");
+                let eq = if unordered { canon(val) == canon(u0) } else { val == u0 };
                 if !eq && !(has_dups(u0) && (tg.name.contains("Map") || tg.name.contains("Set"))) {
                     bad = Some(("value-differs".into(), format!("native {val}, untyped {u0}")));
                 }
